@@ -121,7 +121,7 @@ pub fn run(tier: Tier) -> CheckResult {
     let mut cases: Vec<GraphCase> = vec![];
     for (gi, (n, mask)) in graphs.iter().enumerate() {
         for ctx in 0..CONTEXTS.len() {
-            if *n >= 4 && (gi + ctx) % (if *n == 4 { 2 } else { 5 }) != 0 {
+            if *n >= 4 && (gi + ctx) % (if *n == 4 { if tier == Tier::Quick { 3 } else { 2 } } else { 5 }) != 0 {
                 continue;
             }
             for layout in 0..3 {
